@@ -24,6 +24,9 @@
  * SPDX-License-Identifier: MIT
  */
 #include "ares_private.h"
+#ifdef CARES_VERIF
+#  include "ares_verif.h"
+#endif
 #include "ares_llist.h"
 #include "ares_htable.h"
 
@@ -57,6 +60,15 @@ static unsigned int ares_htable_generate_seed(ares_htable_t *htable)
 #else
   unsigned int seed = 0;
   time_t       t    = time(NULL);
+
+#ifdef CARES_VERIF
+  /* H6: reproducible bucket placement (and therefore allocation sequence) when
+   * the verification random source is installed */
+  if (ares_verif_rand_cb != NULL) {
+    ares_verif_rand_cb((unsigned char *)&seed, sizeof(seed));
+    return seed;
+  }
+#endif
 
   /* Mix stack address, heap address, and time to generate a random seed, it
    * doesn't have to be super secure, just quick.  Likelihood of a hash
